@@ -151,6 +151,7 @@ class FakeFactory:
         self.default_lifetime = default_lifetime
         self.calls = 0
         self.close_raises_after_loss = False
+        self.probe = None
         self.transports: list[FakeTransport] = []
 
     def make(self):
@@ -176,6 +177,8 @@ class FakeFactory:
                 protocol.connection_made(transport)
                 self.transports.append(transport)
                 self.log.add("attempt_ok", i)
+                if self.probe is not None:
+                    self.log.loop.call_later(0.05, self.probe, i)
                 if lifetime is not None:
                     self.log.loop.call_later(lifetime, transport.lose)
                 return transport, protocol
@@ -187,7 +190,8 @@ class FakeFactory:
 
 
 def run_scenario(outcomes, lifetimes, horizon: float, close_at=None, config=None, default_outcome="fail",
-                 default_lifetime=None, use_clock_shim: bool = True, track_tasks: bool = True, close_raises_after_loss: bool = False):
+                 default_lifetime=None, use_clock_shim: bool = True, track_tasks: bool = True, close_raises_after_loss: bool = False,
+                 after_close: float = 200.0):
     """Run ConnectionManager.connect_loop() on a fresh virtual loop.
 
     close_at: None | ("iteration", k, position) | ("time", t) - position: 'first' | 'last' | int index into the ready queue.
@@ -209,6 +213,14 @@ def run_scenario(outcomes, lifetimes, horizon: float, close_at=None, config=None
     result = {"error": None}
     try:
         mgr = mc.ConnectionManager(factory.make())
+
+        def probe(i):
+            strategy = getattr(mgr, "back_off_connect_error", None)
+            delay = getattr(strategy, "current_delay_sec", None)
+            if delay is not None:
+                log.add("backoff_delay_while_connected", i, delay)
+
+        factory.probe = probe
         for k, v in (config or {}).items():
             if k == "max_delay":
                 mgr.back_off_connect_error.max_delay = v
@@ -220,6 +232,7 @@ def run_scenario(outcomes, lifetimes, horizon: float, close_at=None, config=None
             if state["closed"]:
                 return
             state["closed"] = True
+            state["t_close"] = loop.vtime
             log.add("close_called")
             mgr.close()
 
@@ -256,6 +269,11 @@ def run_scenario(outcomes, lifetimes, horizon: float, close_at=None, config=None
             if close_at is not None and close_at[0] == "time":
                 loop.call_later(close_at[1], do_close)
             await asyncio.sleep(horizon)
+            for _ in range(3):  # a close() injected as the last callback of this very iteration runs one iteration later
+                await asyncio.sleep(0)
+            # a close() that landed shortly before the horizon still gets its full observation window
+            while state["closed"] and loop.vtime < state["t_close"] + after_close:
+                await asyncio.sleep(state["t_close"] + after_close - loop.vtime)
             log.add("horizon")
             info["tasks_at_horizon"] = len(asyncio.all_tasks(loop))
             if not task.done():
